@@ -1229,6 +1229,10 @@ def gen_c13_file(rng, tier):
     for _ in range(rng.choice([0, 1, 2, 3, 5])):
         for _try in range(6):
             tick = rng.choice([0, 0, rng.randrange(0, horizon + 1)])
+            if rng.random() < 0.3:
+                # a file tick a little off a library tick (off tick 0 most of all): rounds onto it, but is not ON it
+                k = rng.choice([0, 0, 0, 1, rng.randrange(0, 200)])
+                tick = max(0, k * tpb // PPQN + rng.randrange(-(tpb // 50) - 1, tpb // 50 + 2))
             if nearest_unique(exact(tick, tpb)) is None:
                 continue
             if all(abs(exact(tick, tpb) - exact(o, tpb)) >= 2 for o in sig_ticks):
